@@ -322,6 +322,7 @@ var integer64 = []*instructionType{
 	}, {
 		name:         "slli",
 		opcode:       opcodeShiftImm(false, 6, 0b001, 0b0010011),
+		shamtBits:    6,
 		inputRegCnt:  1,
 		hasOutputReg: true,
 		effects: func(i instruction) []expr.Effect {
@@ -331,6 +332,7 @@ var integer64 = []*instructionType{
 	}, {
 		name:         "srli",
 		opcode:       opcodeShiftImm(false, 6, 0b101, 0b0010011),
+		shamtBits:    6,
 		inputRegCnt:  1,
 		hasOutputReg: true,
 		effects: func(i instruction) []expr.Effect {
@@ -340,6 +342,7 @@ var integer64 = []*instructionType{
 	}, {
 		name:         "srai",
 		opcode:       opcodeShiftImm(true, 6, 0b101, 0b0010011),
+		shamtBits:    6,
 		inputRegCnt:  1,
 		hasOutputReg: true,
 		effects: func(i instruction) []expr.Effect {
@@ -548,6 +551,7 @@ var integer64 = []*instructionType{
 		inputRegCnt:  0,
 		hasOutputReg: true,
 		immediate:    immTypeI,
+		hasUimm:      true,
 		instrType:    model.TypeCPUStateChange,
 		effects: func(i instruction) []expr.Effect {
 			key := csrKey(i)
@@ -562,6 +566,7 @@ var integer64 = []*instructionType{
 		inputRegCnt:  0,
 		hasOutputReg: true,
 		immediate:    immTypeI,
+		hasUimm:      true,
 		instrType:    model.TypeCPUStateChange,
 		effects: func(i instruction) []expr.Effect {
 			key := csrKey(i)
@@ -578,6 +583,7 @@ var integer64 = []*instructionType{
 		inputRegCnt:  0,
 		hasOutputReg: true,
 		immediate:    immTypeI,
+		hasUimm:      true,
 		instrType:    model.TypeCPUStateChange,
 		effects: func(i instruction) []expr.Effect {
 			key := csrKey(i)
@@ -605,6 +611,7 @@ var integer64 = []*instructionType{
 	}, {
 		name:         "slliw",
 		opcode:       opcodeShiftImm(false, 5, 0b001, 0b0011011),
+		shamtBits:    5,
 		inputRegCnt:  1,
 		hasOutputReg: true,
 		effects: func(i instruction) []expr.Effect {
@@ -614,6 +621,7 @@ var integer64 = []*instructionType{
 	}, {
 		name:         "srliw",
 		opcode:       opcodeShiftImm(false, 5, 0b101, 0b0011011),
+		shamtBits:    5,
 		inputRegCnt:  1,
 		hasOutputReg: true,
 		effects: func(i instruction) []expr.Effect {
@@ -623,6 +631,7 @@ var integer64 = []*instructionType{
 	}, {
 		name:         "sraiw",
 		opcode:       opcodeShiftImm(true, 5, 0b101, 0b0011011),
+		shamtBits:    5,
 		inputRegCnt:  1,
 		hasOutputReg: true,
 		effects: func(i instruction) []expr.Effect {
